@@ -157,6 +157,31 @@ def run(res, tier, rng, table_diffs=()):
                                unchecked="correspondence of eval with the fresh-session model (Proofs/C16)"),
                           no_input=same_impl)
     res.coverage["ways"] = list(ways)
+    # RESOURCE-HEAVY evaluations side by side (round 10): each holds 100 000+ live objects while it calls and loops; 16 threads run
+    # nothing but these, so several are always alive at once - a process-wide quota, pool or counter makes one of them fail or differ
+    def big(n, elem):
+        return "[" + ", ".join([elem] * n) + "]"
+    heavy = ["stel a = [%s, %s]; functie f(x) { lengte(x) }; stel i = 0; zolang i < 3 { i += 1; f(a) }; [f(a[0]), f(a[1]), i]" % (big(65000, '"s"'), big(65000, '"t"')),
+             "stel a = [%s, [%s, 1.5]]; functie g() { 7 }; [g(), lengte(a), g()]" % (big(65000, '"x"'), big(60000, '"y"')),
+             "functie h(n) { stel l = %s; als n > 0 { antwoord h(n - 1) + lengte(l) }; lengte(l) }; h(4)" % big(30000, '"z"'),
+             "stel keep = []; stel k = 0; zolang k < 40000 { k += 1; keep = [keep, \"v\"] }; k"]
+    hb = 3000000
+    hreq = ["evalm %d %s" % (hb, hx(p)) for p in heavy]
+    hexp = core.model(["eval %d %s" % (hb, hx(p)) for p in heavy], per_request_timeout=300)
+    hfresh = []
+    for q in hreq:
+        pr = subprocess.run([exe_rel], input=q + "\n", stdout=subprocess.PIPE, stderr=subprocess.DEVNULL, text=True, timeout=300)
+        hfresh.append(pr.stdout.split("\n")[0] if pr.stdout else "CRASH rc=%s" % pr.returncode)
+    ht = core.impl(["threadsm 16 %d %d %s" % (rng.below(2 ** 31), hb, " ".join(hx(p) for p in heavy * 4))], per_request_timeout=600)[0]
+    ht = ht.split(" ;; ") if " ;; " in ht else [ht] * (len(heavy) * 4)
+    for k, p in enumerate(heavy):
+        res.seen(p[:200] + str(len(p)))
+        res.count("heavy-compared")
+        got = {hfresh[k]} | {ht[j] for j in range(k, len(ht), len(heavy))}
+        if (len(got) != 1 or hexp[k] not in {g.split(" @m=")[0] for g in got}) and hexp[k] != "BUDGET" and not hexp[k].startswith(("TIMEOUT", "CRASH")):
+            res.violation("a resource-heavy program evaluates differently when other evaluations are alive in the same process",
+                          dict(kind="impure", input=p if len(p) < 3000 else p[:1500] + " ... " + p[-600:], full_input_len=len(p), expected_model=hexp[k][:300],
+                               answers={"fresh-process": hfresh[k][:300], "threads-16": sorted(x[:300] for x in got)}))
 
 
 def replay(res, rp):
